@@ -38,7 +38,7 @@ def normalize(v):
     return v / (nvals or 1)
 
 
-def _binary_op(op, lhs, rhs):
+def _binary_op(op, lhs, rhs, inplace=False):
     if isinstance(rhs, (int, float, np.ndarray, Quantity)):
         rhs = Array(values=rhs)
     if isinstance(rhs, Array):
@@ -46,9 +46,13 @@ def _binary_op(op, lhs, rhs):
     if lhs.nvec != rhs.nvec:
         raise ValueError("Operands do not have the same number of components.")
 
-    return lhs.__class__(
-        **{c: getattr(xyz, op)(getattr(rhs, c)) for c, xyz in lhs._xyz.items()}
-    )
+    out = {c: getattr(xyz, op)(getattr(rhs, c)) for c, xyz in lhs._xyz.items()}
+    if inplace:
+        # The components have been updated in place: the vector remains the same
+        # object, so that everything that holds it (e.g. several Datagroups) keeps
+        # seeing both its values and its unit after further updates
+        return lhs
+    return lhs.__class__(**out)
 
 
 class Vector(Base):
@@ -173,25 +177,25 @@ class Vector(Base):
         return _binary_op("__add__", self, other)
 
     def __iadd__(self, other):
-        return _binary_op("__iadd__", self, other)
+        return _binary_op("__iadd__", self, other, inplace=True)
 
     def __sub__(self, other):
         return _binary_op("__sub__", self, other)
 
     def __isub__(self, other):
-        return _binary_op("__isub__", self, other)
+        return _binary_op("__isub__", self, other, inplace=True)
 
     def __mul__(self, other):
         return _binary_op("__mul__", self, other)
 
     def __imul__(self, other):
-        return _binary_op("__imul__", self, other)
+        return _binary_op("__imul__", self, other, inplace=True)
 
     def __truediv__(self, other):
         return _binary_op("__truediv__", self, other)
 
     def __itruediv__(self, other):
-        return _binary_op("__itruediv__", self, other)
+        return _binary_op("__itruediv__", self, other, inplace=True)
 
     def __rmul__(self, other):
         return self * other
